@@ -110,7 +110,7 @@ CLAIMED = {
 NA_REASON = {
 }
 
-SUFFIX = " The generators also produce the rare wide and history-dependent shapes that five rounds of independently seeded breaking changes showed to matter (DESIGN.md section 10; the evidence file's rule lists them). The cases of a shard run one after another on one thread, with interludes in between (runs that fail deep inside calls, streams that fail mid-line, rejected texts, lint runs): a case whose result depends on what ran before it on the thread is reported with that history in its replay (DESIGN.md section 8). Thorough tier: 2-30x the cases."
+SUFFIX = " The generators also produce the rare wide and history-dependent shapes that six rounds of independently seeded breaking changes showed to matter (DESIGN.md section 10; the evidence file's rule lists them). The cases of a shard run one after another on one thread, with interludes in between (runs that fail deep inside calls, streams that fail mid-line, rejected texts, lint runs): a case whose result depends on what ran before it on the thread is reported with that history in its replay (DESIGN.md section 8). Thorough tier: 2-30x the cases."
 FUZZ_SUFFIX = " The thorough tier adds a coverage-guided libFuzzer leg carrying the same oracle."
 
 ALL = [json.loads(l)["id"] for l in open("/verif/properties.jsonl")]
